@@ -12,6 +12,7 @@ class C16(E2ECheck):
     """DeferQueue vs reference model (exhaustive + drawn histories) plus
     end-to-end non-seekable downloads under C02's fault sequences."""
     id = 'C16'
+    fuzz = {'quick': (2, 3000), 'thorough': (16, 60000)}
     quick_examples = 48000
     thorough_examples = 1000000
     profile = {
@@ -162,6 +163,7 @@ class C16(E2ECheck):
 
 class C12(E2ECheck):
     id = 'C12'
+    fuzz = {'quick': (2, 3000), 'thorough': (16, 60000)}
     quick_examples = 40000
     thorough_examples = 600000
     profile = {
@@ -306,6 +308,7 @@ class C12(E2ECheck):
 
 class C17(Check):
     id = 'C17'
+    fuzz = {'quick': (2, 3000), 'thorough': (16, 60000)}
     quick_examples = 40000
     thorough_examples = 600000
     assumptions = [
@@ -400,35 +403,20 @@ class C17(Check):
         # systematic single line-level preemption: two threads running one
         # operation each, from two start states, preempted at EVERY executed
         # source line of futures.py in turn
-        idx = 0
-        for prefix in ([], ['q', 'r']):
-            for a in coord.OPS:
-                for b in coord.OPS:
-                    idx += 1
-                    if idx % nshards != shard:
-                        continue
-                    base = {'kind': 'conc', 'threads': [[a], [b]],
-                            'prefix': prefix,
-                            'sched': {'mode': 'walk', 'choices': []}}
-                    v0, info0 = coord.run_concurrent(dict(base, count=True))
-                    n = info0.get('nlines', 0)
-                    for ln in [None] + list(range(1, n + 1)):
-                        case = dict(base, lines=[] if ln is None else [ln])
-                        viol, info = coord.run_concurrent(case)
-                        out = {'violations': [], 'cls': ['line-preempt'],
-                               'nontrivial': info.get('terminal', 0) >= 2,
-                               'fp': f'lp{prefix}{a}{b}{ln}'}
-                        if viol:
-                            out['violations'].append(('c17:' + viol[0],
-                                                      viol[1]))
-                        stats.add(case, out, max_samples=1)
+        for case, viol, info, fp in coord.systematic_line_cases(
+                coord.LINE_PREFIXES, shard, nshards):
+            out = {'violations': [], 'cls': ['line-preempt'],
+                   'nontrivial': info.get('terminal', 0) >= 2, 'fp': fp}
+            if viol:
+                out['violations'].append(('c17:' + viol[0], viol[1]))
+            stats.add(case, out, max_samples=1)
 
     def coverage_extra(self, tier, results):
         return {'exhaustive': True,
                 'exhaustive_bound': f'all operation sequences of length <= '
                                     f'{self.depth(tier)} over 11 operations; '
                                     f'all 2-thread x 1-operation scenarios '
-                                    f'from 2 start states with one '
+                                    f'from 6 start states with one '
                                     f'preemption at every executed line',
                 'explanation': 'exhaustive: true refers to sub-domain (a)'}
 
@@ -450,6 +438,7 @@ def pp_planning_cases():
 
 class C14(E2ECheck):
     id = 'C14'
+    fuzz = {'quick': (2, 3000), 'thorough': (16, 60000)}
     quick_examples = 30000
     thorough_examples = 500000
     oracle = staticmethod(oracles.oracle_c14)
@@ -487,14 +476,15 @@ class C14(E2ECheck):
         cfg = R.case['cfg']
         nt = False
         cls = []
+        adj = R.case.get('adj') or [5 * 1024 ** 2, 5 * 1024 ** 3, 10000]
         for r in R.transfers:
             size = r['spec'].get('size', 0)
             m = oracles.mode_of(R, r)
             cls.append(f'e2e:{r["type"]}:{m}')
             if m in ('multipart', 'ranged') and (
                     size % cfg['multipart_chunksize'] or
-                    cfg['multipart_chunksize'] < R.case['adj'][0] or
-                    cfg['multipart_chunksize'] > R.case['adj'][1]):
+                    cfg['multipart_chunksize'] < adj[0] or
+                    cfg['multipart_chunksize'] > adj[1]):
                 nt = True
         return cls, nt
 
@@ -582,18 +572,26 @@ class C14(E2ECheck):
         import hypothesis
         from hypothesis import given, settings, HealthCheck, Phase
         from ..runner import derive_seed
-        n = max(1, (16 if tier == 'quick' else 160) // nshards)
 
-        @hypothesis.seed(derive_seed(seed, shard, 'C14huge'))
-        @settings(max_examples=n, database=None, deadline=None,
-                  phases=[Phase.generate],
-                  suppress_health_check=list(HealthCheck))
-        @given(gen.huge_copy_cases())
-        def drive(case):
+        def one(case):
             out = E2ECheck.execute(self, case)
             out['cls'] = ['real-scale-copy']
             out['nontrivial'] = True
             stats.add(case, out, max_samples=0)
+        # the full boundary product, in both tiers
+        for i, case in enumerate(gen.huge_copy_matrix()):
+            if i % nshards == shard:
+                one(case)
+        if tier != 'thorough':
+            return
+
+        @hypothesis.seed(derive_seed(seed, shard, 'C14huge'))
+        @settings(max_examples=max(1, 320 // nshards), database=None,
+                  deadline=None, phases=[Phase.generate],
+                  suppress_health_check=list(HealthCheck))
+        @given(gen.huge_copy_cases())
+        def drive(case):
+            one(case)
         drive()
 
     def extra_shard(self, tier, seed, shard, nshards, stats):
